@@ -78,7 +78,9 @@ class MatVal:
     def __eq__(self, o):
         raise TypeError("use mat_equal")
 
-    __hash__ = None
+    def __hash__(self):
+        # like a CasADi SX object: usable as a dictionary key, by identity
+        return id(self)
 
 
 def mat_equal(a, b):
